@@ -19,7 +19,7 @@ from simkit.core import HarnessError
 PROP = "C22"
 LEVEL = "exploration"
 START = "fork"
-TIERS = {"quick": dict(runs=96, wall=900, chunk=1), "thorough": dict(runs=2000, wall=5400, chunk=1)}
+TIERS = {"quick": dict(runs=96, wall=1400, chunk=1), "thorough": dict(runs=2000, wall=5400, chunk=1)}
 TIME_UNIT = "decompilation operations (method/class source or AST requests) -- no clock in the code under test"
 RULE = ("one evaluation = one group: one DEX source decompiled by 4-6 simulated processes, each with its own seeded "
         "PYTHONHASHSEED, seeded identity-hash layout and seeded decompilation history (order, repeats, AST requests, other "
